@@ -243,6 +243,8 @@ def p_fexpr(e: list[Any], lay: Layout) -> str:
 
 def p_left(e: list[Any], lay: Layout) -> str:
     if e[0] == "array":
+        if len(e[1]) == 1:
+            return p_prim(e[1][0], lay) + ","  # a one-item array literal needs the trailing comma
         return ("," + lay.ws(1)).join(p_prim(i, lay) for i in e[1])
     return p_prim(e, lay)
 
